@@ -1,0 +1,24 @@
+//go:build verif
+
+package database
+
+import "github.com/Vedant9500/WTF/internal/cache"
+
+// VerifBM25FParams exposes the BM25F parameters in force (read-only) so that
+// an external reference scorer follows re-tuning instead of flagging it.
+// Order of the field arrays: command, description, keywords, tags.
+func VerifBM25FParams() (k1 float64, w, b [4]float64, minIDF float64) {
+	p := defaultParams()
+	return p.k1,
+		[4]float64{p.w.cmd, p.w.desc, p.w.keys, p.w.tags},
+		[4]float64{p.b.cmd, p.b.desc, p.b.keys, p.b.tags},
+		p.minIDF
+}
+
+// VerifIsCrossPlatformTool exposes the cross-platform tool whitelist predicate.
+func VerifIsCrossPlatformTool(command string) bool { return isCrossPlatformTool(command) }
+
+// VerifSearchCache exposes the search cache under the caching wrapper.
+func (cdb *CachedDatabase) VerifSearchCache() *cache.SearchCache {
+	return cdb.cacheManager.GetSearchCache()
+}
